@@ -62,6 +62,13 @@ Expected(x, r) ==
     [] r.act = "Stutter"       -> [en |-> TRUE, nx |-> x]
     [] OTHER                   -> [en |-> FALSE, nx |-> x]
 
+(* the refused outcome of a lock acquisition that is linearized before the step in which it resumed (see ChordKV, "The lock word") *)
+MayBeEarly(r) == "early" \in DOMAIN r /\ r.early /\ r.act \in {"JoinLock", "LeaveFirst", "LeaveSecond"}
+ExpectedEarly(x, r) ==
+  CASE r.act = "JoinLock"    -> [en |-> JoinLockEn(x, r.n),    nx |-> JoinLockEarlyF(x, r.n)]
+    [] r.act = "LeaveFirst"  -> [en |-> LeaveFirstEn(x, r.n),  nx |-> LeaveFirstEarlyF(x, r.n)]
+    [] r.act = "LeaveSecond" -> [en |-> LeaveSecondEn(x, r.n), nx |-> LeaveSecondEarlyF(x, r.n)]
+
 (* a client operation executed in one scheduler step: it was served by some node z the routing could
    reach, or answered with the retryable stale-ownership error *)
 OpServedBy(x, r) ==
@@ -106,8 +113,10 @@ StepAct(r) ==
      /\ s' = nx /\ ok' = FALSE
      /\ LET v == Violations(nx, FALSE) IN v = {} \/ Emit([t |-> "viol", l |-> l, sid |-> r.sid, what |-> v, act |-> r.act, bad |-> {}])
   ELSE
-  LET e == Expected(s, r)
-      lg == Logged(r, s.lay)
+  LET lg == Logged(r, s.lay)
+      e0 == Expected(s, r)
+      e1 == IF MayBeEarly(r) THEN ExpectedEarly(s, r) ELSE e0
+      e == IF ~(e0.en /\ Phys(e0.nx) = Phys(lg)) /\ e1.en /\ Phys(e1.nx) = Phys(lg) THEN e1 ELSE e0
       good == e.en /\ Phys(e.nx) = Phys(lg)
       nx == Resync(e.nx, lg) IN
   /\ s' = nx
